@@ -103,3 +103,90 @@ func VerifC15_Open() {
 	}
 	vrt.Assert(vrt.AllocBytes() <= int64(4096+2*n+4096), "C15.open allocation proportional to the file")
 }
+
+// VerifC15_Ops: a handle successfully opened on a damaged file - valid header, but every slot
+// byte arbitrary (unaligned or absurd base interval, stale times, garbage) - answers fetches,
+// raw dumps and updates with a result or an error: never a panic, never an allocation out of
+// proportion to the file.
+func VerifC15_Ops() {
+	ls := []string{"5s:15s", "1s:2s,2s:6s"}
+	if vrt.Tier() == 1 {
+		ls = []string{"1s:2s", "5s:15s", "1s:2s,2s:6s", "60s:120s,120s:360s"}
+	}
+	h := vrtChooseHeaderFrom(ls, Sum, 0.5)
+	img, _ := vrtSymbolicImage(h, "s") // base interval NOT assumed aligned here
+	w := vrtOpenImage("c15o.wsp", img)
+	na := len(h.archiveInfoList)
+	now := Timestamp(vrt.U32("now"))
+	vrt.Assume(now != 0)
+	vrt.Reach("pre")
+	vrt.AllocLimit(32*len(img) + 4096)
+	switch vrt.Choose("op", 4) {
+	case 0:
+		_, _ = w.FetchFromArchive(-1+vrt.Choose("id", na+1), Timestamp(vrt.U32("from")), Timestamp(vrt.U32("until")), now)
+	case 1:
+		_, _ = w.GetAllRawUnsortedPoints(vrt.Choose("id", na))
+	case 2:
+		_ = w.UpdatePointForArchive(-1+vrt.Choose("id", na+1), Timestamp(vrt.U32("t")), Value(vrt.F64("v")), now)
+	case 3:
+		pts := []Point{{Timestamp(vrt.U32("t0")), Value(vrt.F64("v0"))}, {Timestamp(vrt.U32("t1")), Value(vrt.F64("v1"))}}
+		_ = w.UpdatePointsForArchive(pts, -1+vrt.Choose("id", na+1), now)
+	}
+	vrt.Assert(vrt.AllocBytes() <= int64(32*len(img)+4096), "C15.ops allocation proportional to the file")
+}
+
+// VerifC15_Short: a file whose header is valid but whose data area is cut short.
+func VerifC15_Short() {
+	h := vrtChooseHeaderFrom([]string{"1s:2s,2s:6s"}, Sum, 0.5)
+	full, _ := vrtSymbolicImage(h, "s")
+	cut := vrt.Choose("cut", len(full)-int(h.Size())) // keep header + cut data bytes (strictly less than all)
+	img := full[:int(h.Size())+cut]
+	path := vrt.TempFile("c15s.wsp", img)
+	vrt.Reach("pre")
+	vrt.AllocLimit(32*len(full) + 8192)
+	w, err := Open(path)
+	if err != nil {
+		return
+	}
+	vrt.Reach("opened")
+	now := Timestamp(vrt.U32("now"))
+	vrt.Assume(now != 0)
+	switch vrt.Choose("op", 3) {
+	case 0:
+		_, _ = w.FetchFromArchive(vrt.Choose("id", 2), Timestamp(vrt.U32("from")), Timestamp(vrt.U32("until")), now)
+	case 1:
+		_, _ = w.GetAllRawUnsortedPoints(vrt.Choose("id", 2))
+	case 2:
+		_ = w.UpdatePointForArchive(ArchiveIDBest, Timestamp(vrt.U32("t")), Value(vrt.F64("v")), now)
+	}
+	vrt.Assert(vrt.AllocBytes() <= int64(32*len(full)+8192), "C15.short allocation proportional to the file")
+}
+
+// VerifC15_Counts: a file whose (valid) header promises far more points than the file holds:
+// reads on the opened handle must not allocate by the header's counts.
+func VerifC15_Counts() {
+	n := vrt.U32("N")
+	vrt.Assume(n >= 1)
+	vrt.Assume(n <= 0x7fffffff)
+	list := ArchiveInfoList{{offset: 28, secondsPerPoint: 1, numberOfPoints: n}}
+	h := &Header{aggregationMethod: Sum, maxRetention: Duration(n), xFilesFactor: 0.5, archiveCount: 1, archiveInfoList: list}
+	img := h.AppendTo(nil)
+	k := vrt.Choose("slots", 3)
+	img = append(img, vrt.Bytes("data", 12*k)...)
+	path := vrt.TempFile("c15c.wsp", img)
+	vrt.Reach("pre")
+	vrt.AllocLimit(32*len(img) + 8192)
+	w, err := Open(path)
+	if err != nil {
+		return
+	}
+	vrt.Reach("opened")
+	if vrt.Choose("op", 2) == 0 {
+		_, _ = w.GetAllRawUnsortedPoints(0)
+	} else {
+		now := Timestamp(vrt.U32("now"))
+		vrt.Assume(now != 0)
+		_, _ = w.FetchFromArchive(0, Timestamp(vrt.U32("from")), Timestamp(vrt.U32("until")), now)
+	}
+	vrt.Assert(vrt.AllocBytes() <= int64(32*len(img)+8192), "C15.counts allocation proportional to the file, not to the header's counts")
+}
